@@ -391,14 +391,30 @@ package redis
 //@   invariant {C05} old(allStrFrom(args, 0)) ==> err == nil || (err == proto.ErrEOM && old(args.index) + len(strs) >= len(args.msgs))
 //@   decreases len(args.msgs) - args.index + (err == nil ? 1 : 0)
 
+// key/value lists, specified for the shapes "one pair" and "two pairs" (kv1 / kv2: exactly that many non-null string arguments are left):
+// every key given is in the map with its value, and for two pairs with the same key the LAST value wins
+//@ spec func kv1(a ref) bool = len(a.msgs) == a.index + 2 && strArg(a, 0) && strArg(a, 1)
+//@ spec func kv2(a ref) bool = len(a.msgs) == a.index + 4 && strArg(a, 0) && strArg(a, 1) && strArg(a, 2) && strArg(a, 3)
+
 //@ func nextStringMapArguments
 //@ requires args != nil
 //@ assigns args.index
 //@ ensures {C10} err == nil ==> result0 != nil && fresh(result0)
 //@ ensures {C10} err != nil ==> result0 == nil
 //@ ensures old(args.index) <= args.index
+// for a list of non-null strings: accepted exactly when there is an even number of them
+//@ ensures {C05,C10} old(allStrFrom(args, 0)) && old(args.index) <= len(args.msgs) ==> (err == nil <==> (len(args.msgs) - old(args.index)) % 2 == 0)
+//@ ensures {C05} old(kv1(args)) ==> err == nil && dom(result0, old(argS(args, 0))) && result0[old(argS(args, 0))] == old(argS(args, 1))
+//@ ensures {C05} old(kv1(args)) ==> forall s string :: dom(result0, s) ==> s == old(argS(args, 0))
+//@ ensures {C05} old(kv2(args)) ==> forall s string :: dom(result0, s) ==> s == old(argS(args, 0)) || s == old(argS(args, 2))
+//@ ensures {C05} old(kv2(args)) ==> err == nil && dom(result0, old(argS(args, 0))) && dom(result0, old(argS(args, 2))) && result0[old(argS(args, 2))] == old(argS(args, 3)) && (old(argS(args, 0)) != old(argS(args, 2)) ==> result0[old(argS(args, 0))] == old(argS(args, 1)))
 //@ loop 0
 //@   invariant old(args.index) <= args.index && args.index <= len(args.msgs) && dir != nil && fresh(dir)
+//@   invariant {C05} old(allStrFrom(args, 0)) && err == nil ==> (args.index - old(args.index)) % 2 == 1 && args.index >= 1 && key == string(args.msgs[args.index - 1].bytes) && witness(args.index) && witness(args.index + 1)
+//@   invariant {C05} old(allStrFrom(args, 0)) && err != nil ==> err == proto.ErrEOM && args.index == len(args.msgs) && (args.index - old(args.index)) % 2 == 0
+//@   invariant {C05} old(kv1(args)) ==> (err == nil && args.index == old(args.index) + 1 && key == old(argS(args, 0))) || (err == proto.ErrEOM && args.index == old(args.index) + 2 && dom(dir, old(argS(args, 0))) && dir[old(argS(args, 0))] == old(argS(args, 1)))
+//@   invariant {C05} old(kv1(args)) || old(kv2(args)) ==> forall s string :: dom(dir, s) ==> (args.index >= old(args.index) + 2 && s == old(argS(args, 0))) || (args.index >= old(args.index) + 4 && s == old(argS(args, 2)))
+//@   invariant {C05} old(kv2(args)) ==> (err == nil && args.index == old(args.index) + 1 && key == old(argS(args, 0))) || (err == nil && args.index == old(args.index) + 3 && key == old(argS(args, 2)) && dom(dir, old(argS(args, 0))) && dir[old(argS(args, 0))] == old(argS(args, 1))) || (err == proto.ErrEOM && args.index == old(args.index) + 4 && dom(dir, old(argS(args, 0))) && dom(dir, old(argS(args, 2))) && dir[old(argS(args, 2))] == old(argS(args, 3)) && (old(argS(args, 0)) != old(argS(args, 2)) ==> dir[old(argS(args, 0))] == old(argS(args, 1))))
 //@   decreases len(args.msgs) - args.index + (err == nil ? 1 : 0)
 
 //@ func nextMSetArguments
@@ -407,6 +423,11 @@ package redis
 //@ ensures {C10} err == nil ==> result0 != nil && fresh(result0)
 //@ ensures {C10} err != nil ==> result0 == nil
 //@ ensures old(args.index) <= args.index
+//@ ensures {C05,C10} old(allStrFrom(args, 0)) && old(args.index) <= len(args.msgs) ==> (err == nil <==> (len(args.msgs) - old(args.index)) % 2 == 0)
+//@ ensures {C05} old(kv1(args)) ==> err == nil && dom(result0, old(argS(args, 0))) && result0[old(argS(args, 0))] == old(argS(args, 1))
+//@ ensures {C05} old(kv2(args)) ==> err == nil && dom(result0, old(argS(args, 0))) && dom(result0, old(argS(args, 2))) && result0[old(argS(args, 2))] == old(argS(args, 3)) && (old(argS(args, 0)) != old(argS(args, 2)) ==> result0[old(argS(args, 0))] == old(argS(args, 1)))
+//@ ensures {C05} old(kv1(args)) ==> forall s string :: dom(result0, s) ==> s == old(argS(args, 0))
+//@ ensures {C05} old(kv2(args)) ==> forall s string :: dom(result0, s) ==> s == old(argS(args, 0)) || s == old(argS(args, 2))
 
 //@ func nextSetExArguments
 //@ requires args != nil
@@ -913,8 +934,13 @@ package redis
 // MSETNX first reads and then stores with the NX flag so that the handler can still refuse a key that appeared meanwhile.
 //@ executor "MSET"
 //@ ensures {C05,C12} old(H_calls) <= H_calls
+// every Set call stores a pair of the request: for one pair exactly that pair, for two pairs with the same key the last value
+//@ ensures {C05,C12} old(kv1(args)) ==> forall i int :: old(H_calls) <= i && i < H_calls ==> H_Set_key[i] == old(argS(args, 0)) && H_Set_val[i] == old(argS(args, 1))
+//@ ensures {C05,C12} old(kv2(args)) && old(argS(args, 0)) == old(argS(args, 2)) ==> forall i int :: old(H_calls) <= i && i < H_calls ==> H_Set_key[i] == old(argS(args, 0)) && H_Set_val[i] == old(argS(args, 3))
 //@ ensures {C05,C12} forall i int :: old(H_calls) <= i && i < H_calls ==> H_m[i] == "Set" && H_conn[i] == conn && !H_Set_opt_NX[i] && !H_Set_opt_XX[i] && !H_Set_opt_GET[i] && !H_Set_opt_KEEPTTL[i] && H_Set_opt_EX[i] == 0 && H_Set_opt_PX[i] == 0
 //@ loop 0
+//@   invariant {C05,C12} dict != nil && forall i int :: old(H_calls) <= i && i < H_calls ==> dom(dict, H_Set_key[i]) && H_Set_val[i] == dict[H_Set_key[i]]
+//@   invariant {C05,C12} (old(kv1(args)) ==> dict[old(argS(args, 0))] == old(argS(args, 1)) && (forall s string :: dom(dict, s) ==> s == old(argS(args, 0)))) && (old(kv2(args)) && old(argS(args, 0)) == old(argS(args, 2)) ==> dict[old(argS(args, 0))] == old(argS(args, 3)) && (forall s string :: dom(dict, s) ==> s == old(argS(args, 0))))
 //@   invariant old(H_calls) <= H_calls && !opt.NX && !opt.XX && !opt.GET && !opt.KEEPTTL && opt.EX == 0 && opt.PX == 0
 //@   invariant forall i int :: old(H_calls) <= i && i < H_calls ==> H_m[i] == "Set" && H_conn[i] == conn && !H_Set_opt_NX[i] && !H_Set_opt_XX[i] && !H_Set_opt_GET[i] && !H_Set_opt_KEEPTTL[i] && H_Set_opt_EX[i] == 0 && H_Set_opt_PX[i] == 0
 
